@@ -16,7 +16,34 @@ write datagram is additionally executed and judged with wrong counters that
 coincide with the expected one in their low bits (expected+0x100, |0x8000,
 0xff00|expected, 0xffff, expected+1, 0x80|expected, expected+0x200; one writer
 at a time and all together) - a wrong counter is one class for the successor
-state, so these do not multiply the states.
+state, so these do not multiply the states.  Three more families of variants
+of every distinct step are executed and judged in the same way (judged, not
+explored further):
+  * stragglers: while output is disabled (start-up, "just registered") or the
+    group has no program, the frame arrives with its write datagrams ENABLED
+    (an activated frame of an earlier group of the same devices in the same
+    slot, still on the wire) and with working counters as expected / all 0 /
+    one wrong / all wrong.  Only (loop index, commands) that the real
+    programs put on the bus are used (`Model.activated`, derived by running
+    them for every counter value).  C21: nothing is counted, nothing
+    re-enabled, nothing cleared; the frame leaves the bus (handed to user
+    space) or goes back with every write datagram disabled.  The unchanged
+    tree returns such a frame still enabled when the new group's program
+    gets it with output disabled: known finding KF_ADOPTED, attributed only
+    for exactly that shape (see `judge_pass`);
+  * the ethertype: the same step for a master whose own ethertype is 0x88A4
+    (data0 == 0x88A4) besides the default data0 != 0x88A4; on every pass a
+    frame returned to the bus keeps 0x88A4 and a frame handed to user space
+    carries data0, and the outcome does not depend on data0 otherwise;
+  * the counter abstraction: the state keeps the low byte of the loop counter
+    word; sampled steps are repeated with other upper 24 bits (0xfedcba,
+    0x000001, 0xffffff).  If the outcome differs, the low byte is not the
+    whole state: the space is then explored twice more with the counter word
+    living above 255 (0x100 | c and 0xffffff00 | c: "the slot has seen more
+    than 255 frames", which every slot reaches because the word is never
+    reset), judged by the same invariants; violations found there carry
+    high=True in their case.  Only when these spaces show nothing either the
+    run ends INTERNAL (abstraction not exact).
 
 Part 2, life cycle (`Life`).
 The real `FastSyncGroup.run` / `SyncGroupBase.run` / `update_devices` /
@@ -33,7 +60,10 @@ run() or running=False at any point once output is enabled, and the random
 group numbers (every function of the random source is owned, tiny domain, so
 collisions between two masters are forced).  Both invariant sets are
 evaluated on every pass, including those between a stop request and the
-unregistration.
+unregistration.  Also: loop counters an earlier user of the slot left above
+255 (0x1fe: the real 32-bit word, no abstraction), and a restart - the
+cancelled group's successor gets the same slot while the old group's frames,
+one of them activated, are still on the wire and output is disabled.
 
 One explorer, two invariant sets: `run_for(ctx, "C22")` / `run_for(ctx, "C21")`.
 """
@@ -58,14 +88,24 @@ RULE = ("breadth-first search over all dispatcher states reachable by "
         "distinct (counter, output flag, arriving frame) step runs the real "
         "dispatcher + group bytecode, steps of frames with enabled write "
         "datagrams also with wrong counters that equal the expected one in "
-        "their low bits; a state is non-trivial when at least one frame is "
+        "their low bits, steps with output disabled or without a program "
+        "also with an arriving frame whose write datagrams are enabled "
+        "(straggler of an earlier group in the slot; counters expected / 0 / "
+        "wrong), every step also with data0 = 0x88A4 (ethertype of returned "
+        "and of handed-up frames judged on every pass); loop counter kept as "
+        "its low byte, sampled steps re-run with other upper bits, and if "
+        "they matter the whole space explored again with the counter word "
+        "above 255; a state is non-trivial when at least one frame is "
         "in flight.  Life cycle: all executions of the real FastSyncGroup.run "
         "+ register_sync_group of one group (every layout, left-over loop "
         "counters) and of two masters with one or two groups each on one "
         "program table, frames passing the real dispatcher + table, with at "
         "most `bound` deviations (timer/bus order, losses, wrong counter, "
         "cancel, running=False) from the default schedule and all random "
-        "group numbers from a 3-element domain; an execution is non-trivial "
+        "group numbers from a 3-element domain; plus one group per layout "
+        "with the slot's counter word left at 0x1fe, and a cancelled group "
+        "restarted in the same slot while its frames are on the wire; an "
+        "execution is non-trivial "
         "when the program ran with output enabled and a frame reached user "
         "space")
 
@@ -80,6 +120,18 @@ NSAT = 3
 
 KF_NOTGEN = "C22-dispatcher-not-generated"
 KF_STARVE = "C22-starved-by-overtaking"
+KF_ADOPTED = "C21-activated-frame-adopted-by-disabled-group"
+
+
+def defect_model_of(observed):
+    """the known-finding id a step-local violation was attributed to by
+    `judge_pass` (directly or inside a variant's record), or None"""
+    for o in (observed, observed.get("observed")
+              if isinstance(observed, dict) else None):
+        # (a variant's record holds the judged pass's own record)
+        if isinstance(o, dict) and o.get("defect_model"):
+            return o["defect_model"]
+    return None
 
 # (position, use_fmmu, in_sz, out_sz); writers/readers = datagram counts
 LAYOUTS = {
@@ -187,7 +239,8 @@ def standalone_ok(layout):
     return os.WIFEXITED(status) and os.WEXITSTATUS(status) == 0
 
 
-def judge_pass(writers, out_pos, gsize, registered, werr0, mark, frame, obs):
+def judge_pass(writers, out_pos, gsize, registered, werr0, mark, frame, obs,
+               ever_enabled=False):
     """step-local invariants of one dispatcher pass of a frame of a group
     -> list of (prop, name, expected, observed).
 
@@ -196,7 +249,9 @@ def judge_pass(writers, out_pos, gsize, registered, werr0, mark, frame, obs):
     size of the group's packet; werr0: wkc_errors before the pass; mark:
     what the device stamps into every output in this pass; obs: trap, ret,
     frame (after), tail (did the dispatcher's tail call enter the group's
-    program), werr (after), runs (device program runs in this pass)."""
+    program), werr (after), runs (device program runs in this pass);
+    ever_enabled: has the output of this group been enabled at any time
+    since it was registered (only used to attribute KF_ADOPTED narrowly)."""
     v = []
     if obs["trap"] is not None:
         v.append(("C22", "trap", "XDP action TX or PASS",
@@ -266,6 +321,10 @@ def judge_pass(writers, out_pos, gsize, registered, werr0, mark, frame, obs):
         if obs["werr"] != werr0:
             v.append(("C21", "errors counted in a pass without enabled "
                       "processing", werr0, obs["werr"]))
+        # disabling a write datagram (command -> NOP) is not re-enabling,
+        # clearing or counting: a pass may do that whenever it likes (it is
+        # the only way such a frame may go back onto the bus)
+        allowed |= {cp for cp, _, _, _ in writers if post[cp] == 0}
     bad = sorted(diff - allowed)
     if bad:
         what = "re-activation" if enabled else \
@@ -282,14 +341,29 @@ def judge_pass(writers, out_pos, gsize, registered, werr0, mark, frame, obs):
                       "all writer commands NOP, or group program ran",
                       dict(commands=live, index=post[INDEX0])))
         elif not won:
-            # the group's program processed the frame in this pass, with
-            # output disabled.  The last sentence of the statement asks for
-            # "processed in that pass", not for "with output enabled"
-            # (reading that demands less; see the assumptions): such a
-            # frame arrived with its write datagrams enabled - the pass
-            # enabled nothing, or the byte comparison above has reported it -
-            # and goes on as it came.  Noted, not judged.
-            obs["disabled_program_returned_enabled_frame"] = True
+            # the group's program ran, with output disabled: nothing in the
+            # frame was computed in this pass
+            o = dict(commands=live, index=post[INDEX0], wkc_errors=werr0,
+                     outputs=[struct.unpack_from("<H", post, p)[0]
+                              for p in out_pos])
+            # defect model KF_ADOPTED, exactly: the frame ARRIVED with these
+            # write datagrams enabled (the pass enabled nothing and changed
+            # nothing but the loop index), nothing was counted, and the
+            # output of this group has never been enabled: the frame was
+            # activated by an earlier user of the slot.  The modelled
+            # deviation: "the program of a group whose output is disabled
+            # returns the frame as it came instead of disabling its write
+            # datagrams"; with the datagrams disabled this pass is accepted
+            # (see `allowed` above), so the failure vanishes under it.
+            if not ever_enabled and not bad and obs["werr"] == werr0 == 0 \
+                    and live == [frame[cp] for cp, _, _, _ in writers]:
+                o["defect_model"] = KF_ADOPTED
+                obs["disabled_program_returned_enabled_frame"] = True
+            v.append(("C21", "frame returned to the bus with enabled write "
+                      "datagrams in a pass with output disabled",
+                      "all writer commands NOP, or the group program "
+                      "processed the frame with output enabled "
+                      "(wkc_errors != 0)", o))
     return v
 
 
@@ -324,10 +398,21 @@ class Model:
                       tuple(w[3] for w in self.writers))
         self.nruns = 0
         self.nvariants = 0
+        self.nstragglers = 0
+        self.ndata0 = 0
+        self.nadopted = 0
         self.cache = {}
         self.kernel_note = None
         self.rdisp = self.rgroup = None
         self.kernel_checked = 0
+        # the upper 24 bits of the loop counter word the steps are executed
+        # with (0: a slot that has seen fewer than 256 frames)
+        self.hi = 0
+        self.high_checked = 0
+        self.high_dep = None
+        self.step_outcomes = set()
+        self.activated = {}
+        self._collect_activated()
         if use_kernel and kern.available():
             self._load_real(seam)
 
@@ -422,6 +507,64 @@ class Model:
             allw[n] = (e + 0x100) & 0xffff
         if sum(1 for c in cmds if c) > 1:
             out.append(("all", None, (idx, cmds, tuple(allw))))
+        return out
+
+    def _collect_activated(self):
+        """the frames with enabled write datagrams that the real programs
+        put on the bus: loop index -> {writer commands}.  Found by running
+        the dispatcher + the group's program (registered, output enabled)
+        on sterile frames for every value of the loop counter; nothing is
+        judged here, this is the alphabet of the stragglers."""
+        if not self.writers:
+            return
+        if not self.registered:
+            self.disp.register(self.index, self.group)
+        try:
+            for c in range(256):
+                for idx in sorted({0, c, (c - 1) & 0xff}):
+                    frame = self.frame_bytes((idx, self.fresh[1],
+                                              self.fresh[2]))
+                    obs = self._execute1(c, 1, frame, PRANDOM[3])
+                    if obs["trap"] is None and obs["ret"] == TX and \
+                            len(obs["frame"]) == len(frame):
+                        st = self.frame_state(obs["frame"])
+                        if any(st[1]):
+                            self.activated.setdefault(st[0], set()).add(st[1])
+        finally:
+            if not self.registered:
+                self.disp.unregister(self.index)
+
+    def straggler_variants(self, fr):
+        """frames with ENABLED write datagrams arriving in a pass in which
+        output is disabled or the group has no program: an activated frame
+        of an earlier group of the same devices in the same slot, still on
+        the wire.  Same loop index as `fr`; only (index, commands) that the
+        real programs produce (`activated`); counters: all as expected
+        (executed by the terminals), all zero (cleared by the old program,
+        not executed), one writer wrong (0, expected + 0x100, 0xffff) and all
+        writers expected + 0x100 -> [(what, frame state)]"""
+        idx = fr[0]
+        out = []
+        exp = tuple(w[3] for w in self.writers)
+        for cmds in sorted(self.activated.get(idx, ())):
+            live = [n for n, c in enumerate(cmds) if c]
+            seen = set()
+
+            def add(what, wk):
+                wk = tuple(w if n in live else exp[n]
+                           for n, w in enumerate(wk))
+                if wk not in seen:
+                    seen.add(wk)
+                    out.append((what, (idx, cmds, wk)))
+            add("every counter as expected", exp)
+            add("every counter 0", tuple(0 for _ in exp))
+            for n in live:
+                for v in (0, exp[n] + 0x100, 0xffff):
+                    w = list(exp)
+                    w[n] = v & 0xffff
+                    add(f"writer {n} returned {v & 0xffff:#06x}", w)
+            add("every counter expected + 0x100",
+                tuple((e + 0x100) & 0xffff for e in exp))
         return out
 
     def foreign_frame(self, kind):
@@ -557,6 +700,45 @@ class Model:
         return v
 
     # ------------------------------------------------------------ steps
+    HIGH_PROBES = (0xfedcba00, 0x00000100, 0xffffff00)
+
+    def _abstraction_check(self, c, won, fr, frame, obs):
+        """the counter abstraction: the state keeps the low byte of the loop
+        counter word.  Exact when the outcome of a step does not depend on
+        the upper 24 bits: the step is repeated with other upper bits.  A
+        dependence is recorded (`high_dep`), not raised: the space is then
+        explored again with the counters living above 255 (see `work`)."""
+        hi = self.HIGH_PROBES[self.high_checked % len(self.HIGH_PROBES)]
+        self.high_checked += 1
+        obs2 = self.execute(hi | c, won, frame)
+        low = (obs["ret"], obs["frame"], obs["c"] & 0xff, obs["werr"],
+               (obs["c"] - c) & 0xffffffff, obs["trap"])
+        high = (obs2["ret"], obs2["frame"], obs2["c"] & 0xff, obs2["werr"],
+                (obs2["c"] - (hi | c)) & 0xffffffff, obs2["trap"])
+        if low != high and self.high_dep is None:
+            self.high_dep = dict(
+                counter=c, upper_bits=hi, output_enabled=won, arriving=fr,
+                low=dict(action=low[0], counter_after=low[2],
+                         increment=low[4], index_after=low[1][INDEX0]
+                         if len(low[1]) > INDEX0 else None, trap=low[5]),
+                high=dict(action=high[0], counter_after=high[2],
+                          increment=high[4], index_after=high[1][INDEX0]
+                          if len(high[1]) > INDEX0 else None, trap=high[5]))
+
+    @staticmethod
+    def _merge_variant(viol, pvs, suffix, extra, props=("C21", "C22")):
+        """violations of a variant of the step (judged, not explored
+        further): one per name, the first"""
+        for pv in pvs:
+            if pv[0] not in props:
+                continue
+            name = pv[1] + suffix
+            kf = defect_model_of(pv[3])
+            if any(x[1] in (name, pv[1]) and defect_model_of(x[3]) == kf
+                   for x in viol):
+                continue
+            viol.append((pv[0], name, pv[2], dict(extra, observed=pv[3])))
+
     def step_group(self, c, won, fr):
         """memoised: (c, won, arriving frame) ->
         (ret, tail, c', won', frame' or None, violations, obs digest)"""
@@ -565,42 +747,78 @@ class Model:
         if r is not None:
             return r
         frame = self.frame_bytes(fr)
-        obs = self.execute(c, won, frame)
+        c32 = self.hi | c
+        obs = self.execute(c32, won, frame)
         viol = self.judge_group_step(c, won, frame, obs)
-        # the counter abstraction: only the low byte is read
-        # (checked on steps that were judged correct; a step with a
-        # violation is reported as such)
-        if obs["trap"] is None and not viol and \
+        # the counter abstraction (checked on steps that were judged
+        # correct; a step with a violation is reported as such)
+        if self.hi == 0 and obs["trap"] is None and not viol and \
                 (self.nruns % 8 == 0 or c in (0, 255)):
-            hi = 0xfedcba00
-            obs2 = self.execute(hi | c, won, frame)
-            if (obs2["ret"], obs2["frame"], obs2["c"] & 0xff, obs2["werr"]) \
-                    != (obs["ret"], obs["frame"], obs["c"] & 0xff,
-                        obs["werr"]) \
-                    or (obs2["c"] - (hi | c)) != (obs["c"] - c):
-                raise Internal("the dispatcher depends on more than the low "
-                               f"byte of the loop counter (c={c})")
+            self._abstraction_check(c, won, fr, frame, obs)
         if obs["other"]:
             viol.append(("C22", "dispatcher wrote outside the group's loop "
                          "counter", "untouched", "other map bytes changed"))
+        # the same step for a master that uses the EtherCAT ethertype itself
+        # (data0 == 0x88A4: FastEtherCat, the first participant): the same
+        # invariants, and the same outcome apart from the ethertype
+        if obs["trap"] is None and len(frame) >= 28:
+            f2 = bytearray(frame)
+            f2[26:28] = ECAT[::-1]
+            o2 = self.execute(c32, won, f2)
+            self.ndata0 += 1
+            pv2 = self.judge_group_step(c, won, f2, o2)
+            same = o2["trap"] is None and all(
+                o2[k] == obs[k] for k in ("ret", "tail", "c", "werr", "runs"))
+            if same:
+                same = len(o2["frame"]) == len(obs["frame"]) and all(
+                    a == b for n, (a, b) in enumerate(zip(o2["frame"],
+                                                          obs["frame"]))
+                    if n not in (12, 13, 26, 27))
+            if not same:
+                pv2.append(("C22", "the outcome of a pass depends on the "
+                            "ethertype user space asked for",
+                            "the same action, counters and frame (apart "
+                            "from the ethertype) for data0 = 0x88a4 and "
+                            f"{ETHERTYPE:#06x}",
+                            dict(action=o2["ret"], trap=o2["trap"],
+                                 tail=o2["tail"], counter=o2["c"] & 0xff)))
+            self._merge_variant(viol, pv2, " [data0 = 0x88a4]",
+                                dict(data0="0x88a4"))
         # the same step with wrong counters that look right in their low
         # bits (judged, not explored further: see wrong_counter_variants)
         if obs["trap"] is None and any(fr[1]):
             for n, val, vfr in self.wrong_counter_variants(fr):
                 vframe = self.frame_bytes(vfr)
-                vobs = self.execute(c, won, vframe)
+                vobs = self.execute(c32, won, vframe)
                 self.nvariants += 1
-                for pv in self.judge_group_step(c, won, vframe, vobs):
-                    name = pv[1] + " [working counter that equals the " \
-                        "expected one in its low bits]"
-                    if pv[0] != "C21" or any(name == x[1] for x in viol):
-                        continue
-                    what = "all writers" if n == "all" else \
-                        f"writer {n} returned {val:#06x}"
-                    viol.append((pv[0], name, pv[2],
-                                 dict(observed=pv[3], counters=what,
-                                      arriving=list(vfr[2]))))
-                    break
+                what = "all writers" if n == "all" else \
+                    f"writer {n} returned {val:#06x}"
+                self._merge_variant(
+                    viol, self.judge_group_step(c, won, vframe, vobs)[:],
+                    " [working counter that equals the expected one in its "
+                    "low bits]", dict(counters=what, arriving=list(vfr[2])),
+                    props=("C21",))
+        # the same step with an activated frame of an earlier group in this
+        # slot arriving instead (stragglers): output disabled or no program
+        if obs["trap"] is None and not (self.registered and won):
+            for what, vfr in self.straggler_variants(fr):
+                vframe = self.frame_bytes(vfr)
+                vobs = self.execute(c32, won, vframe)
+                self.nstragglers += 1
+                pvs = self.judge_group_step(c, won, vframe, vobs)
+                if vobs.get("disabled_program_returned_enabled_frame"):
+                    self.nadopted += 1
+                self.step_outcomes.add(
+                    ("straggler", self.registered, bool(won), vobs["ret"],
+                     bool(vobs["tail"]),
+                     vobs["trap"] is None and len(vobs["frame"]) > INDEX0
+                     and any(vobs["frame"][cp]
+                             for cp, _, _, _ in self.writers)))
+                self._merge_variant(
+                    viol, pvs, " [frame arriving with enabled write "
+                    "datagrams]", dict(arriving_commands=list(vfr[1]),
+                                       arriving_counters=list(vfr[2]),
+                                       counters=what))
         ret = obs["ret"]
         nf = None
         if ret == TX and len(obs["frame"]) == len(frame):
@@ -616,13 +834,13 @@ class Model:
         if r is not None:
             return r
         frame = self.foreign_frame(kind)
-        obs = self.execute(c, won, frame)
+        obs = self.execute(self.hi | c, won, frame)
         viol = self.judge_foreign(kind, frame, obs, c)
         if obs["werr"] != (1 if won else 0) or obs["runs"]:
             viol.append(("C22", "foreign frame reached the group program",
                          "untouched group", dict(werr=obs["werr"],
                                                  runs=obs["runs"])))
-        if obs["other"] or obs["c"] != c:
+        if obs["other"] or obs["c"] != self.hi | c:
             viol.append(("C22", f"foreign frame ({kind}) changed the "
                          "dispatcher's counters", "untouched",
                          dict(group_counter=obs["c"], other=obs["other"])))
@@ -759,7 +977,8 @@ def bfs(m, K, cap):
                 # history-dependent violations are reported separately for
                 # ring order and for histories that used overtaking
                 hist = viol[1].startswith("more than two")
-                sig = (viol[0], viol[1], hist and s2[2] < K)
+                sig = (viol[0], viol[1], hist and s2[2] < K,
+                       defect_model_of(viol[3]))
                 if sig not in seen_sig:
                     seen_sig.add(sig)
                     found.append((sid, ev, viol))
@@ -950,7 +1169,88 @@ def classify(viol, disp, overtakes):
     if viol[1].startswith("more than two consecutive frames") \
             and overtakes >= 1 and disp[-3:] in STARVE_PATTERNS:
         return KF_STARVE
+    if viol[1].startswith("frame returned to the bus with enabled write "
+                          "datagrams in a pass with output disabled"):
+        return defect_model_of(viol[3])
     return None
+
+
+HIGH_SPACES = (0x00000100, 0xffffff00)
+
+
+def _report_search(m, r, prop, case0, K, cap, res, high=0):
+    """counts, outcomes and violations of one search of one configuration
+    (high: the upper bits the loop counter word lived in)"""
+    layout, registered = m.layout, m.registered
+    nst = len(r["states"])
+    res.count("states", nst)
+    res.count("transitions", r["transitions"])
+    res.count("evaluations", r["transitions"])
+    if high:
+        res.count("high_counter_states", nst)
+        res.count("high_counter_transitions", r["transitions"])
+    byk = {}
+    for s in r["states"]:
+        byk[K - s[2]] = byk.get(K - s[2], 0) + 1
+    res.cov.setdefault("per_config", []).append(dict(
+        layout=layout, registered=registered, K=K, states=nst,
+        transitions=r["transitions"], distinct_steps=len(m.cache),
+        states_by_overtakes_used=byk, counter_upper_bits=high,
+        max_queue=max(len(s[3]) for s in r["states"]),
+        counters_reached=len({s[0] for s in r["states"]})))
+    if r["capped"]:
+        res.caps_hit.append(f"{layout}/{registered}/K={K}: state cap "
+                            f"{cap}")
+        res.exhaustive = False
+    tag = f"{layout}/{registered}/{high}/".encode()
+    for s in r["states"]:
+        if s[3]:
+            res.nontrivial.add(hashlib.blake2b(
+                tag + repr(s).encode(), digest_size=8).hexdigest())
+    for key, val in m.cache.items():
+        if key[0] == "F":
+            res.outcomes.add(("foreign", val[0]))
+        else:
+            res.outcomes.add((registered, val[0], val[1],
+                              val[4] is not None
+                              and any(val[4][1])))
+    res.outcomes |= m.step_outcomes
+    for sid, ev, viol in r["found"]:
+        evs, disp, overtakes = patterns(m, r, sid, ev)
+        kf = classify(viol, disp, overtakes)
+        if high and kf is None:
+            res.count("high_counter_violations_both_properties")
+        if viol[0] != prop:
+            res.count("violations_of_sibling_property")
+            continue
+        res.violation(dict(case0, events=evs, check=viol[1],
+                           dispositions=disp[-4:],
+                           overtakes_used=overtakes),
+                      viol[2], viol[3], kf=kf,
+                      sig=core.digest([viol[0], viol[1], str(kf),
+                                       overtakes > 0, bool(high)]),
+                      note=viol[1] + (" [loop counter word above 255]"
+                                      if high else ""))
+    if not registered and prop == "C22":
+        cyc = find_circulation(m, r)
+        res.count("circulation_edges", len(r["circ_edges"]))
+        fed = find_fed_circulation(m, r)
+        if fed is not None and not high:
+            kinds = sorted({e[0] for e in fed[1]})
+            res.cov.setdefault(
+                "circulation_under_continuous_injection", []).append(
+                dict(layout=layout, prefix=fed[0], cycle_length=len(
+                    fed[1]), cycle_event_kinds=kinds,
+                    cycle_head=fed[1][:6]))
+        if cyc is not None:
+            res.violation(
+                dict(case0, events=cyc[0], cycle=cyc[1],
+                     check="circulation"),
+                "no cycle on which a frame of an unregistered group "
+                "keeps returning to the bus",
+                dict(cycle_length=len(cyc[1])),
+                sig=core.digest(["C22", "circulation", bool(high)]),
+                note="frame of an unregistered group circulates forever")
 
 
 def work(item, res):
@@ -960,6 +1260,7 @@ def work(item, res):
     try:
         m = Model(layout, registered)
     except LeakedState as e:
+        res.count("configs_not_built")
         if not STANDALONE.get(layout, True):
             # the generator refuses this group even on its own: a rejection,
             # not a statement about frames
@@ -1013,71 +1314,36 @@ def work(item, res):
                               note=viol[1])
         r = bfs(m, K, cap)
         nst = len(r["states"])
-        res.count("states", nst)
-        res.count("transitions", r["transitions"])
-        res.count("evaluations", r["transitions"])
+        _report_search(m, r, prop, case0, K, cap, res)
+        res.count("counter_high_bits_checked", m.high_checked)
+        if m.high_dep is not None:
+            # the outcome of a step depends on the upper 24 bits of the loop
+            # counter word: the low byte alone is not the state.  A slot
+            # whose counter has passed 255 is what every slot reaches (the
+            # word is never reset), so that space is explored as well and
+            # judged by the same invariants.
+            res.cov["counter_high_bits_matter"] = True
+            res.cov.setdefault("counter_high_bits_dependence", []).append(
+                dict(layout=layout, registered=registered, **m.high_dep))
+            for hi in HIGH_SPACES:
+                m.hi = hi
+                m.cache = {}
+                rh = bfs(m, K, cap)
+                _report_search(m, rh, prop, dict(case0, high=True,
+                                                 counter_upper_bits=hi),
+                               K, cap, res, high=hi)
+            m.hi = 0
+            m.cache = {}
         res.count("vm_runs", m.nruns)
         res.count("traces_validated_against_impl", m.nruns)
         res.count("kernel_validated", m.kernel_checked)
         res.count("wrong_counter_variant_steps", m.nvariants)
-        byk = {}
-        for s in r["states"]:
-            byk[K - s[2]] = byk.get(K - s[2], 0) + 1
-        res.cov.setdefault("per_config", []).append(dict(
-            layout=layout, registered=registered, K=K, states=nst,
-            transitions=r["transitions"], distinct_steps=len(m.cache),
-            states_by_overtakes_used=byk,
-            max_queue=max(len(s[3]) for s in r["states"]),
-            counters_reached=len({s[0] for s in r["states"]})))
-        if r["capped"]:
-            res.caps_hit.append(f"{layout}/{registered}/K={K}: state cap "
-                                f"{cap}")
-            res.exhaustive = False
-        tag = f"{layout}/{registered}/".encode()
-        for s in r["states"]:
-            if s[3]:
-                res.nontrivial.add(hashlib.blake2b(
-                    tag + repr(s).encode(), digest_size=8).hexdigest())
-        for key, val in m.cache.items():
-            if key[0] == "F":
-                res.outcomes.add(("foreign", val[0]))
-            else:
-                res.outcomes.add((registered, val[0], val[1],
-                                  val[4] is not None
-                                  and any(val[4][1])))
-        for sid, ev, viol in r["found"]:
-            evs, disp, overtakes = patterns(m, r, sid, ev)
-            kf = classify(viol, disp, overtakes)
-            if viol[0] != prop:
-                res.count("violations_of_sibling_property")
-                continue
-            res.violation(dict(case0, events=evs, check=viol[1],
-                               dispositions=disp[-4:],
-                               overtakes_used=overtakes),
-                          viol[2], viol[3], kf=kf,
-                          sig=core.digest([viol[0], viol[1], str(kf),
-                                           overtakes > 0]),
-                          note=viol[1])
-        if not registered and prop == "C22":
-            cyc = find_circulation(m, r)
-            res.count("circulation_edges", len(r["circ_edges"]))
-            fed = find_fed_circulation(m, r)
-            if fed is not None:
-                kinds = sorted({e[0] for e in fed[1]})
-                res.cov.setdefault(
-                    "circulation_under_continuous_injection", []).append(
-                    dict(layout=layout, prefix=fed[0], cycle_length=len(
-                        fed[1]), cycle_event_kinds=kinds,
-                        cycle_head=fed[1][:6]))
-            if cyc is not None:
-                res.violation(
-                    dict(case0, events=cyc[0], cycle=cyc[1],
-                         check="circulation"),
-                    "no cycle on which a frame of an unregistered group "
-                    "keeps returning to the bus",
-                    dict(cycle_length=len(cyc[1])),
-                    sig=core.digest(["C22", "circulation"]),
-                    note="frame of an unregistered group circulates forever")
+        res.count("straggler_steps", m.nstragglers)
+        res.count("data0_ethercat_steps", m.ndata0)
+        res.count("enabled_frames_returned_by_a_disabled_program",
+                  m.nadopted)
+        if m.writers and not m.activated:
+            res.count("configs_without_activated_frames")
         if len(res.samples) < 2 and nst > 10:
             sid = min(nst - 1, 777)
             res.sample(dict(case0, events=trace_to(r["parent"], sid),
@@ -1126,6 +1392,22 @@ def run_for(ctx, prop):
     res = core.pmap(ctx, work_any, items + litems, chunk=1)
     res.merge(life0)
     life_finish(ctx, res)
+    if any(any(o for _, _, _, o in LAYOUTS[i[1]]) for i in items) and \
+            not res.cov.get("straggler_steps") and \
+            not res.cov.get("configs_without_activated_frames") and \
+            not res.cov.get("configs_not_built"):
+        raise Internal("no step was fed a frame with enabled write "
+                       "datagrams while output was disabled")
+    if res.cov.get("counter_high_bits_matter") and \
+            not res.cov.get("high_counter_violations_both_properties"):
+        # the low byte is not the whole state, and the spaces above 255
+        # show nothing (for C21 and C22 together): nothing can be concluded
+        raise Internal(
+            "the dispatcher depends on more than the low byte of the loop "
+            "counter, and the spaces with upper bits "
+            + ", ".join(f"{h:#x}" for h in HIGH_SPACES)
+            + " show no violation: the counter abstraction is not exact "
+            f"({res.cov.get('counter_high_bits_dependence', [])[:1]})")
     # the counterexamples with the fewest deviations first
     res.violations.sort(
         key=lambda v: len(v["case"].get("deviations", ()))
@@ -1137,9 +1419,38 @@ def run_for(ctx, prop):
                                   f"budget K <= {items[0][3]}")
     res.assumptions += [
         "loop counter abstracted to its low byte (the dispatcher reads only "
-        "mB; checked by re-running steps with garbage upper bytes); "
+        "mB; asserted by re-running sampled steps with the upper 24 bits "
+        "0xfedcba / 0x000001 / 0xffffff, counter_high_bits_checked; were "
+        "the outcome to differ, the space is explored again with the "
+        "counter word above 255 - 0x100|c and 0xffffff00|c - and judged by "
+        "the same invariants instead of trusting the abstraction); "
         "wkc_errors abstracted to zero / non-zero (the program only tests "
         "== 0; a 2^32 wrap is outside the model)",
+        "C21, last sentence ('no frame goes back onto the bus with enabled "
+        "write datagrams unless the group's program processed it in that "
+        "pass'): 'processed' = the group's program ran in that pass WITH "
+        "output enabled, i.e. re-enabled the datagrams and computed the "
+        "outputs in that pass (the title's 'only write outputs computed in "
+        "the same pass'; the reading under which the seeded change C21-6 is "
+        "a violation).  A frame that arrives with enabled write datagrams "
+        "and is not processed like that may be handed to user space as it "
+        "is, or go back onto the bus with every write datagram disabled: "
+        "disabling (command -> NOP) is allowed in any pass, it is neither "
+        "re-enabling nor clearing nor counting.  Nothing else in it may "
+        "change, nothing is counted",
+        "stragglers: a frame with enabled write datagrams can be on the wire "
+        "while output is disabled or the group has no program (an activated "
+        "frame of an earlier group of the same devices in the same slot; "
+        "slots and counters are reused, never reset); only combinations of "
+        "loop index and commands that the real dispatcher + group program "
+        "produce are fed (an enabled frame with another index has no "
+        "history), at every counter value the search reaches with a frame "
+        "of that index; counters expected / all 0 / one wrong / all wrong",
+        "ethertype: a frame of a group returned to the bus (XDP_TX) carries "
+        "0x88A4 (it is a frame on the EtherCAT loop), one handed to user "
+        "space (XDP_PASS) the ethertype in the identification datagram's "
+        "data, registered or not; judged on every pass for data0 = 0x9abc "
+        "and data0 = 0x88a4",
         "'running the group's program' = the dispatcher's tail call entered "
         "the group's program (whether or not output is enabled); frames "
         "counted are the group's frames processed by the dispatcher, in "
@@ -1339,7 +1650,9 @@ class Life:
         self.stepno = 0
         self.stats = dict(passes=0, enabled=0, handed_up=0, lost=0,
                           teardown_passes=0, wrong=0, dropped_up=0,
-                          collisions=0)
+                          collisions=0, restarts=0, stragglers=0,
+                          adopted=0)
+        self.restarts = []
         self.outcomes = set()
         self.nrand = 0
 
@@ -1350,8 +1663,9 @@ class Life:
             self.log.append(f"[{self.stepno}] {text}")
 
     def violation(self, prop, name, expected, observed):
-        if (prop, name) not in self.seen and not self.closing:
-            self.seen.add((prop, name))
+        key = (prop, name, defect_model_of(observed))
+        if key not in self.seen and not self.closing:
+            self.seen.add(key)
             self.viol.append((prop, name, expected, observed, self.stepno))
             self.note(f"VIOLATION {prop}: {name}")
 
@@ -1554,8 +1868,10 @@ class Life:
             obs["tail"] = 0
         was_reg = g.registered
         for pv in judge_pass(g.writers, g.out_pos, g.gsize, was_reg, werr0,
-                             mark, pre, obs):
+                             mark, pre, obs, ever_enabled=g.operational):
             self.violation(*pv)
+        if obs.get("disabled_program_returned_enabled_frame"):
+            self.stats["adopted"] += 1
         if werr0:
             g.operational = True
         if ran_own:
@@ -1713,6 +2029,11 @@ class Life:
             gs = [g for g in self.groups if g.mi == mi and
                   (k is None or g.k == k)]
             for g in gs:
+                if action == "restart":
+                    # a supervisor: as soon as the master's previous group
+                    # has ended, the next one is started (below)
+                    self.restarts.append(g)
+                    continue
                 if action == "start":
                     self._rand_tries = 0
                     g.task = g.sg.start()
@@ -1726,6 +2047,26 @@ class Life:
                 else:
                     raise Internal(action)
 
+    def _restart(self):
+        n = 0
+        for g in list(self.restarts):
+            prev = next(p for p in self.groups
+                        if p.mi == g.mi and p.k == g.k - 1)
+            if prev.task is not None and prev.task.done():
+                self.restarts.remove(g)
+                self._rand_tries = 0
+                g.task = g.sg.start()
+                self.note(f"{g.name}: start() as soon as {prev.name} has "
+                          f"ended; {len(self.wire)} frame(s) still on the "
+                          "wire")
+                self.stats["restarts"] += 1
+                self.stats["stragglers"] += sum(
+                    1 for f in self.wire
+                    if prev.writers and any(f[cp] for cp, _, _, _
+                                            in prev.writers))
+                n += 1
+        return n
+
     def _drive(self):
         cfg = self.cfg
         horizon = cfg["horizon"]
@@ -1734,6 +2075,8 @@ class Life:
         while True:
             self._script()
             self.loop.run_until_idle()
+            if self.restarts and self._restart():
+                self.loop.run_until_idle()
             if self.pending_round:
                 self.pending_round = False
                 self.round_left = LIFE_ROUNDS * len(self.wire)
@@ -1840,6 +2183,30 @@ def life_configs(ctx):
                              cost_W=2 if quick else 1,
                              cost_R=2 if quick else 1,
                              domain=[GROUP_INDEX[layout]]), bound))
+    for n, layout in enumerate(layouts):
+        # (b') the slot has seen more than 255 frames (the counter word is
+        # never reset; here it also passes 0x200 during start-up): single
+        # deviations
+        out.append((dict(kind="one-group-high-counter", masters=[[layout]],
+                         counter0=0x1fe, horizon=24 if quick else 30,
+                         script=[[0, "start", 0, 0]], alphabet="TDLWCR",
+                         cost_W=1, cost_R=1,
+                         domain=[GROUP_INDEX[layout]]), 1))
+        if not LAYOUTS[layout] or not any(o for _, _, _, o
+                                          in LAYOUTS[layout]):
+            continue
+        if quick and n >= 2:
+            continue
+        # (b'') restart: the group is cancelled, and as soon as it has
+        # unregistered a new group of the same devices is started and gets
+        # the same slot - while frames of the old one (one of them
+        # activated) are still on the wire and output is disabled
+        out.append((dict(kind="restart", masters=[[layout, layout]],
+                         counter0=0, horizon=30,
+                         script=[[0, "start", 0, 0], [16, "cancel", 0, 0],
+                                 [16, "restart", 0, 1]],
+                         alphabet="TDLW", cost_W=1,
+                         domain=[GROUP_INDEX[layout]]), 1))
     # (c) two masters on one program table
     la, lb = layouts[0], layouts[1]
     # (name, groups per master, the master that leaves while the other
@@ -1885,6 +2252,10 @@ def life_on_exec(prop, cfg, res):
         res.count("lifecycle_enabled_passes", st["enabled"])
         res.count("lifecycle_teardown_passes", st["teardown_passes"])
         res.count("lifecycle_slot_collisions", st["collisions"])
+        res.count("lifecycle_restarts_in_the_same_slot", st["restarts"])
+        res.count("lifecycle_stragglers_adopted", st["adopted"])
+        res.count("lifecycle_activated_frames_on_the_wire_at_restart",
+                  st["stragglers"])
         if any(g["over3"] for g in obs["groups"]):
             res.count("outside_precondition")
         for o in obs["outcomes"]:
@@ -1903,9 +2274,14 @@ def life_on_exec(prop, cfg, res):
             if p != prop:
                 res.count("violations_of_sibling_property")
                 continue
-            res.count("lifecycle_violating_executions")
+            kf = defect_model_of(observed)
+            if kf is None:
+                res.count("lifecycle_violating_executions")
+            else:
+                res.count("lifecycle_executions_showing_a_known_finding")
             # the shortest few per kind are enough for the report
-            kept = [v for v in res.violations if v["note"] == name]
+            kept = [v for v in res.violations
+                    if v["note"] == name and v["kf"] == kf]
             if len(kept) >= 2:
                 continue
             res.violation(
@@ -1913,7 +2289,8 @@ def life_on_exec(prop, cfg, res):
                      deviations=[(i, k) for i, (k, n, c, _) in
                                  enumerate(ch.trace) if c],
                      check=name, at_step=step),
-                expected, observed, sig=core.digest([p, name]), note=name)
+                expected, observed, kf=kf,
+                sig=core.digest([p, name] + ([kf] if kf else [])), note=name)
     return on_exec
 
 
@@ -2002,6 +2379,12 @@ def life_finish(ctx, res):
                        "the unregistration was explored")
     if not res.cov.get("lifecycle_slot_collisions"):
         raise Internal("life cycle: no colliding group number was explored")
+    at_restart = "lifecycle_activated_frames_on_the_wire_at_restart"
+    if not res.cov.get(at_restart) and \
+            not res.cov.get("lifecycle_violating_executions") and \
+            not res.cov.get("violations_of_sibling_property"):
+        raise Internal("life cycle: no activated frame of a stopped group "
+                       "was on the wire when its successor got the slot")
     res.cov["lifecycle_configs"] = len(life_configs(ctx))
     res.assumptions += [
         "life cycle: terminal state changes are stubs that take 1 "
@@ -2018,6 +2401,12 @@ def life_finish(ctx, res):
         "refers to the group's own variables map; the starvation bound is "
         "judged only while the history never had more than three frames of "
         "the group in flight (the statement's precondition)",
+        "life cycle, restart: a supervisor starts a new group of the same "
+        "devices as soon as the cancelled one has unregistered; the random "
+        "source gives it the same slot; the frames of the old group still "
+        "on the wire (the activated one among them) are then frames of the "
+        "new group and are judged as such (same layout: same datagram "
+        "positions), the new group's output being disabled",
         "life cycle: 'restart after loss' = after the horizon no deviation "
         "is injected and the default schedule continues until every group "
         "that is registered and whose run() is alive has had its program "
@@ -2061,6 +2450,10 @@ def replay_for(ctx, rep, prop):
         if c.get("check") == "sterile":
             return [dict(check=v[1], observed=v[3]) for v in sterile_check(m)
                     if v[0] == prop]
+        m.hi = c.get("counter_upper_bits", 0) if c.get("high") else 0
+        if m.hi:
+            print(f"  loop counter word = {m.hi:#010x} | c (the slot has "
+                  "seen more than 255 frames)")
         s = initial_state(c["K"])
         evs = [tup(e) for e in c["events"]]
         cyc = [tup(e) for e in c.get("cycle", [])]
